@@ -71,6 +71,7 @@ TRANSLATION TABLE (Python → Lean)
   X is not None and rest (test position, X : Option)   (match X with | some x => rest | none => false)   x == opt → (some x == opt)
   self._xs.append(e) / .remove(e) on a state list   let xs := xs ++ [e] / xs.erase e; registry list_remove_raises: `if xs.contains e then … else
                                         .error Py.Err.Value`;  xs.copy() → xs;  self.PROP after state writes → (PROP { self with … })
+  registry effect `self.PROP=`: self.PROP = e   let effects_ := effects_ ++ [(e)]    (the property's setter runs with e)
 NOT in the subset: floats, strings (except in `raise`), dict values, sets, slices, list indexing, nested defs, lambda,
 try/with, while without fuel, *args/**kwargs, walrus, global state, division by 0.
 """
@@ -647,6 +648,9 @@ class Translator:
             self.bad(s, "chained assignment")
         tg = s.targets[0]
         env = dict(env)
+        if isinstance(tg, ast.Attribute) and _dotted(tg) and _dotted(tg) + "=" in self.fn.effects:
+            # registry effect `self.PROP=`: the assignment runs the property's setter with this value (cells extension)
+            return self.let(OUT, f"{OUT} ++ [({self.expr(s.value, env)[0]})]") + k(env)
         if isinstance(tg, ast.Subscript) and _dotted(tg.value) in env:
             x, tx = _dotted(tg.value), env[_dotted(tg.value)]
             if tx and tx[0] == "D":
